@@ -6,6 +6,25 @@ BASELINE = ("cd /repo && cargo nextest run --workspace --no-fail-fast --tool-con
             "--profile pb --test-threads 8 --offline")
 
 CLAIMED = {
+    'C07': dict(
+        technique='Lean 4 proof (representation invariant preserved by every push, lifted over all histories by induction; '
+                  'every accessor characterised under the invariant) over a hand-transcribed model of the four storages + '
+                  'differential correspondence run in two harness builds (with and without the `unsafe` feature)',
+        text='Theorem c07_window_is_last_n: for the array, unsafe-array, unsafe-vector storages and for the vector storage after '
+             'fixes/F1-window-vec.diff, every 0 < size < capacity (vector: multiple >= 2), every default value and every push '
+             'history of any length, construct-and-push never panics and never violates the precondition of an unchecked '
+             'operation, and size/empty/filled/first/last/slice/vec/arr answer exactly the spec (last `size` values in push '
+             'order, filled iff size <= n, empty iff n = 0, Err while not filled); c07_backends_agree / c07_backends_same_state. '
+             'The safe vector storage as it is in /repo violates the property (F1, open known finding: the repair is blocked by '
+             'a repository test that pins the defective output): c07_vec_fails (witness, replayed on the real code on every run) '
+             'and c07_vec_partial (histories up to the capacity).',
+        note='Trusted: Lean kernel (propext, Classical.choice, Quot.sound); the hand-written model lean/DcVerif/Model/Window.lean '
+             '(tied to /repo only by the correspondence run: sizes 1..9, every capacity N+1..3N, multiples 2..4, u8/u32/u64, '
+             'every observable after every push, up to 40*cap pushes); copy_within/ptr::copy = memmove and the 16-byte chunked '
+             'copy of the unsafe array = memmove; compiled behaviour of the unsafe blocks is compared, their abstract-machine '
+             'preconditions are proved for the model only. F10 (copy_nonoverlapping on overlapping ranges in '
+             'unsafe_storage_array.rs, aborts under debug assertions) is repaired by fixes/F10-window-unsafe-array.diff.',
+        ref='DESIGN.md §7 C07'),
     'C19': dict(
         technique='Lean 4 proof (refinement invariant by induction over the call history) over definitions regenerated '
                   'from bit_map.rs/logarithm.rs by a translator + differential correspondence run',
